@@ -1,4 +1,5 @@
 CONSTANT L = 2
+CONSTANT RemFoldAll = TRUE
 CONSTANT CheckRemCommit = FALSE
 SPECIFICATION Spec
 INVARIANT Sound
